@@ -277,15 +277,33 @@ func c16State(c *Ctx) {
 	c.Check(keys(q) == want, rule, fname(qf), "equal compares the same fields", "", "equal looks at the fields "+keys(q), qf.Pos())
 	// unmarshal accepts only when every byte was consumed
 	ci := newCondIndex(uf, allParamNames(uf))
-	okEnd := false
+	// every non-constant result is an equality that involves the input's length (`len(rest) == 0`, `off == len(data)`);
+	// a constant true result accepts whatever is left over
+	okEnd, constTrue, other := false, false, ""
 	for _, b := range uf.Blocks {
 		if ret, isRet := b.Instrs[len(b.Instrs)-1].(*ssa.Return); isRet {
-			if s := ci.be.plain(ret.Results[0], ret).String(); strings.HasPrefix(s, "eq(len(") && strings.HasSuffix(s, ",0x0)") {
+			if k, isK := ret.Results[0].(*ssa.Const); isK {
+				if k.Value != nil && k.Value.String() == "true" {
+					constTrue = true
+				}
+				continue
+			}
+			s := ci.be.plain(ret.Results[0], ret).String()
+			if strings.HasPrefix(s, "eq(") && strings.Contains(s, "len(") {
 				okEnd = true
+			} else {
+				other = s
 			}
 		}
 	}
-	c.Check(okEnd, rule, fname(uf), "trailing bytes make the state invalid", "", "unmarshal does not end with `return len(data) == 0`", uf.Pos())
+	switch {
+	case constTrue:
+		c.Violated(rule, fname(uf), "trailing bytes make the state invalid", "unmarshal has an unconditional `return true`: bytes left over after the last certificate are accepted", uf.Pos())
+	case okEnd && other == "":
+		c.Holds(rule, fname(uf), "trailing bytes make the state invalid", "the only non-constant result is an equality over the input's length", uf.Pos())
+	default:
+		c.Undecided(rule, fname(uf), "trailing bytes make the state invalid", "the final result is not an equality over the input's length: "+other, uf.Pos())
+	}
 	// ... and on nothing else: the MAC has already authenticated the ticket, so unmarshal must accept every state
 	// marshal can produce — no test on the VALUE of a decoded field (a range check on vers refuses every GMSSL
 	// ticket, 0x0101 lying below SSL 3.0)
